@@ -24,7 +24,7 @@ Depth(p) == Cardinality({a \in Paths : IsAncestorOrSelf(a, p)})
 
 (* ------------------------------------------------------------ nodes *)
 (* perm / mt = -1 in an EXPECTED node mean "not constrained by the property" *)
-Absent == [t |-> "none", c |-> 0, sz |-> 0, mt |-> 0, ns |-> 0, perm |-> 0, tgt |-> ""]
+Absent == [t |-> "none", c |-> 0, sz |-> 0, mt |-> 0, ns |-> 0, perm |-> 0, tgt |-> "", uid |-> 0, gid |-> 0]
 Exists(fs, p) == fs[p].t # "none"
 IsDir(fs, p) == fs[p].t = "dir"
 IsSpecial(ty) == ty \in {"fifo", "sock", "chr", "blk"}
@@ -53,19 +53,29 @@ NeedsTransfer(e, st, o) ==
 (* ------------------------------------------------------------ metadata (C11) *)
 (* attributes a destination entry must end with: the preserve options decide *)
 (* which are constrained; `old` is the node that was there before            *)
+(* -o / -g (running as root): the destination entry gets the source's owner / group; without the option the   *)
+(* property constrains nothing (-1).  Option records without these fields (families that do not vary them)   *)
+(* mean "off".                                                                                               *)
+OptO(o) == "o" \in DOMAIN o /\ o.o
+OptG(o) == "g" \in DOMAIN o /\ o.g
+OwnerU(e, o) == IF OptO(o) THEN e.uid ELSE -1
+OwnerG(e, o) == IF OptG(o) THEN e.gid ELSE -1
 RegAttrs(e, old, o) ==
   [t |-> "reg", c |-> e.c, sz |-> e.sz, tgt |-> "", ns |-> 0,
    mt |-> IF o.t THEN e.mt ELSE -1,
-   perm |-> IF o.p THEN e.perm ELSE IF old.t = "reg" THEN old.perm ELSE -1]
+   perm |-> IF o.p THEN e.perm ELSE IF old.t = "reg" THEN old.perm ELSE -1,
+   uid |-> OwnerU(e, o), gid |-> OwnerG(e, o)]
 (* an up-to-date file that is skipped: times/permissions are still brought in line *)
 SkipAttrs(e, old, o) ==
   [old EXCEPT !.mt = IF o.t THEN e.mt ELSE old.mt, !.ns = 0,
-              !.perm = IF o.p THEN e.perm ELSE old.perm]
+              !.perm = IF o.p THEN e.perm ELSE old.perm,
+              !.uid = IF OptO(o) THEN e.uid ELSE old.uid, !.gid = IF OptG(o) THEN e.gid ELSE old.gid]
 DirAttrs(e, old, o) ==
   [t |-> "dir", c |-> 0, sz |-> 0, tgt |-> "", mt |-> -1, ns |-> 0,
-   perm |-> IF o.p THEN e.perm ELSE IF old.t = "dir" THEN -1 ELSE -1]
-LnkAttrs(e) == [t |-> "lnk", c |-> 0, sz |-> 0, tgt |-> e.tgt, mt |-> -1, ns |-> 0, perm |-> -1]
-SpecAttrs(e, o) == [t |-> e.t, c |-> 0, sz |-> 0, tgt |-> "", mt |-> -1, ns |-> 0, perm |-> IF o.p THEN e.perm ELSE -1]
+   perm |-> IF o.p THEN e.perm ELSE IF old.t = "dir" THEN -1 ELSE -1,
+   uid |-> OwnerU(e, o), gid |-> OwnerG(e, o)]
+LnkAttrs(e) == [t |-> "lnk", c |-> 0, sz |-> 0, tgt |-> e.tgt, mt |-> -1, ns |-> 0, perm |-> -1, uid |-> -1, gid |-> -1]
+SpecAttrs(e, o) == [t |-> e.t, c |-> 0, sz |-> 0, tgt |-> "", mt |-> -1, ns |-> 0, perm |-> IF o.p THEN e.perm ELSE -1, uid |-> OwnerU(e, o), gid |-> OwnerG(e, o)]
 
 (* does an observed node satisfy an expected one?  J is the set of aspects   *)
 (* the property under check constrains: "type", "content", "target",         *)
@@ -78,6 +88,8 @@ NodeMatchesJ(exp, obs, J) ==
   /\ ("target" \in J /\ exp.t = "lnk" /\ obs.t = "lnk") => exp.tgt = obs.tgt
   /\ ("perm" \in J /\ exp.perm # -1 /\ exp.t = obs.t) => exp.perm = obs.perm
   /\ ("mtime" \in J /\ exp.mt # -1 /\ exp.t = "reg" /\ obs.t = "reg") => exp.mt = obs.mt
+  /\ ("owner" \in J /\ exp.t = obs.t /\ exp.t # "none") => /\ (exp.uid # -1 => exp.uid = obs.uid)
+                                                               /\ (exp.gid # -1 => exp.gid = obs.gid)
   /\ ("dmtime" \in J /\ exp.mt # -1 /\ exp.t = "dir" /\ obs.t = "dir") => exp.mt = obs.mt      \* (dry runs: directories keep their mtimes too)
 NodeMatches(exp, obs) == NodeMatchesJ(exp, obs, AllAspects)
 TreeMatchesJ(exp, obs, J) == \A p \in Paths : NodeMatchesJ(exp[p], obs[p], J)
@@ -96,7 +108,7 @@ Selected(src, rules) == [p \in Paths |-> IF Excluded(rules, p) THEN Absent ELSE 
 (* names the user's exclude rules protect from --delete on the receiving side *)
 Protected(rules) == {p \in Paths : ExcludedSelf(rules, p)}
 (* the entries of a tree as a (sorted) file list, as a sender walking it lists them *)
-EntryOf(name, n) == [name |-> name, t |-> n.t, c |-> n.c, sz |-> n.sz, mt |-> n.mt, perm |-> n.perm, tgt |-> n.tgt]
+EntryOf(name, n) == [name |-> name, t |-> n.t, c |-> n.c, sz |-> n.sz, mt |-> n.mt, perm |-> n.perm, tgt |-> n.tgt, uid |-> n.uid, gid |-> n.gid]
 ListOfTree(tree) == LET F[k \in 0..Len(Universe)] ==
                           IF k = 0 THEN <<>>
                           ELSE IF Exists(tree, Universe[k]) THEN Append(F[k-1], EntryOf(Universe[k], tree[Universe[k]])) ELSE F[k-1]
